@@ -26,6 +26,13 @@ type c04T2 struct{ Tag string }
 
 func (c04T2) MI() {}
 
+// c04Both implements I and J: registered under the key I it must NOT satisfy a request for J
+// (resolution goes by the type a value is registered under, not by what the value happens to be).
+type c04Both struct{ Tag string }
+
+func (c04Both) MI() {}
+func (c04Both) MJ() {}
+
 type c04NS string
 
 type c04I interface{ MI() }
@@ -66,6 +73,10 @@ func (r *c04Reg) id(v reflect.Value) string {
 		return "NS:" + string(v.Interface().(c04NS))
 	case c04TypCh:
 		return "chan:" + r.chTags[v.Pointer()]
+	case reflect.TypeOf(c04Both{}):
+		return "Both:" + v.Interface().(c04Both).Tag
+	case reflect.TypeOf(c04JImpl{}):
+		return "JImpl:" + v.Interface().(c04JImpl).Tag
 	}
 	return fmt.Sprintf("?%v", v.Type())
 }
@@ -89,10 +100,13 @@ func (r *c04Reg) mkValue(ti int, tag string, variant int) reflect.Value {
 		r.chTags[v.Pointer()] = tag
 		return v
 	case 5: // under key I: a value of an implementing type
-		if variant%2 == 0 {
+		switch variant % 3 {
+		case 0:
 			return reflect.ValueOf(&c04T1{tag})
+		case 1:
+			return reflect.ValueOf(c04T2{tag})
 		}
-		return reflect.ValueOf(c04T2{tag})
+		return reflect.ValueOf(c04Both{tag})
 	case 6: // under key J: nothing in the universe implements J; a dedicated implementor
 		return reflect.ValueOf(c04JImpl{tag})
 	}
